@@ -86,14 +86,14 @@ def gen_device(rng: random.Random, xy=False, focus=None):
             )
         )
     dmms = []
-    for _ in range(rng.choice([0, 0, 1, 2])):
+    for _ in range(rng.choice([0, 0, 1, 2]) if focus != "dmm" else rng.choice([1, 1, 2])):
         dmms.append(
             dict(
                 clock_period=rng.choice([1, 4]),
                 min_duration=rng.choice([1, 16]),
                 max_duration=10**8,
                 mod_bandwidth=rng.choice([None, 8.0]),
-                bottom_detuning=rng.choice([None, -20.0, -6.0]),
+                bottom_detuning=rng.choice([None, -20.0, -6.0] if focus != "dmm" else [None, -20.0, -6.0, -6.0, -2.0]),
                 total_bottom_detuning=rng.choice([None, -40.0, -8.0]),
             )
         )
@@ -108,10 +108,10 @@ def gen_device(rng: random.Random, xy=False, focus=None):
         channels=chans,
         dmms=dmms,
         max_sequence_duration=rng.choice([None, None, None, 3000, 700] if focus != "limits" else [None, 3000, 700, 400]),
-        reusable=rng.random() < (0.5 if focus == "typestate" else 0.3),
+        reusable=rng.random() < (0.5 if focus == "typestate" else 0.65 if focus == "dmm" else 0.3),
         # SLM mask support needs a DMM; sequences that configure a mask are run through
         # the implementation and the property oracles only (the Coq model has no SLM mask)
-        slm=bool(dmms) and rng.random() < 0.25,
+        slm=bool(dmms) and rng.random() < (0.5 if focus == "typestate" else 0.25),
     )
 
 
@@ -249,6 +249,9 @@ OP_WEIGHTS = {
     "local": dict(add=35, delay=8, target=35, align=5, phase=8, eom=4, detmap=1, bad_disable=0.5, bad_addeom=0.5, mag=0.5, slm=2.5),
     "phase": dict(add=45, delay=6, target=10, align=4, phase=28, eom=8, detmap=1, bad_disable=0.5, bad_addeom=0.5, mag=0.5, slm=2.5),
     "limits": dict(add=60, delay=12, target=6, align=8, phase=2, eom=6, detmap=6, bad_disable=0.5, bad_addeom=0.5, mag=0.5, slm=2.5),
+    # several DMM channels (also the same DMM id declared twice on a reusable device, each
+    # with its own detuning map), pulses on them near the per-atom / total bottom detuning
+    "dmm": dict(add=40, delay=8, target=4, align=8, phase=3, eom=3, detmap=22, bad_disable=0.5, bad_addeom=0.5, mag=0.5, slm=2.5),
     "typestate": dict(add=30, delay=8, target=10, align=6, phase=6, eom=14, detmap=8, bad_disable=6, bad_addeom=6, mag=5, slm=2.5),
 }
 
@@ -317,9 +320,32 @@ def gen_ops(rng: random.Random, case, n_ops: int, invalid_rate: float, query_rat
         i += 1
         decl = live.channels()
         remaining = n_ops - len(ops)
+        slm_first = [o for o in ops if o["op"] == "config_slm"] if not decl else []
+        if slm_first and case["maps"] and rng.random() < 0.5 and not any(o["op"] == "config_detmap" for o in ops):
+            # a detuning map on the DMM the (still pending) SLM mask has reserved
+            emit(dict(op="config_detmap", map=rng.randrange(len(case["maps"])), dmm_id=slm_first[0]["dmm_id"]))
+            continue
+        if not decl and rng.random() < (0.3 if focus == "typestate" else 0.12):
+            # mode-setting calls on a sequence without any channel yet
+            r0 = rng.random()
+            if r0 < 0.35 and dev.get("dmms") and case["maps"]:
+                k = rng.randrange(len(dev["dmms"]))
+                did = f"dmm_{k}" if rng.random() > 0.3 else "dmm_9"
+                emit(dict(op="config_detmap", map=rng.randrange(len(case["maps"])), dmm_id=did))
+            elif r0 < 0.75 and dev.get("slm") and dev.get("dmms") and not any(o["op"] == "config_slm" for o in ops):
+                emit(dict(op="config_slm", qubits=qsubset(), dmm_id=f"dmm_{rng.randrange(len(dev['dmms']))}"))
+            else:
+                emit(dict(op="set_mag", bx=rng.choice([0.0, 1.0]), by=0.0, bz=rng.choice([0.0, 30.0])))
+            continue
         if not decl or rng.random() < 0.06 + (0.25 if len(decl) < 2 and i < 6 else 0):
             emit(declare())
             continue
+        if focus == "dmm" and dev.get("dmms") and case["maps"] and decl:
+            nd = sum(1 for o in ops if o["op"] == "config_detmap")
+            if nd < 3 and rng.random() < (0.5 if nd < 2 else 0.1):
+                k = 0 if rng.random() < 0.7 else rng.randrange(len(dev["dmms"]))
+                emit(dict(op="config_detmap", map=nd % len(case["maps"]), dmm_id=f"dmm_{k}"))
+                continue
         if rng.random() < query_rate:
             qk = rng.choice(["q_duration", "q_duration", "estimate", "estimate", "q_phase_ref", "q_in_eom", "q_available"])
             name = rng.choice(list(decl)) if rng.random() > 0.08 else bad_name()
@@ -342,6 +368,10 @@ def gen_ops(rng: random.Random, case, n_ops: int, invalid_rate: float, query_rat
             emit(dict(op="measure", basis=rng.choice(bases + ["XY", "digital"])))
             continue
         name = rng.choice(list(decl))
+        if focus == "dmm":
+            dn = [x for x in decl if isinstance(decl[x], DMM)]
+            if dn and rng.random() < 0.5:
+                name = rng.choice(dn)
         obj = decl[name]
         spec = chan_spec_of(obj)
         if rng.random() < invalid_rate * 0.3:
@@ -377,7 +407,15 @@ def gen_ops(rng: random.Random, case, n_ops: int, invalid_rate: float, query_rat
                     )
                 )
             elif r < 0.65:
-                emit(dict(op="delay", duration=gen_duration(rng, spec), channel=name, at_rest=rng.random() < 0.3))
+                d = gen_duration(rng, spec)
+                pj = int(getattr(obj, "phase_jump_time", 0) or 0)
+                if pj > spec["min_duration"] + 2 and rng.random() < 0.45:
+                    # leave a few ns of the phase-jump buffer: the wait the scheduler then
+                    # inserts has to be rounded to the channel's clock / minimum duration
+                    c = spec["clock_period"]
+                    d = max(spec["min_duration"], pj - rng.randint(1, spec["min_duration"] + c))
+                    d = -(-d // c) * c
+                emit(dict(op="delay", duration=d, channel=name, at_rest=rng.random() < 0.3))
             elif r < 0.78:
                 emit(dict(op="disable_eom", channel=name, correct=rng.random() < 0.4))
             elif r < 0.92:
@@ -523,16 +561,18 @@ def scale_down(w, mx):
     return w
 
 
-FOCI = [None, "eom", "conflict", "local", "phase", "limits", "typestate"]
+FOCI = [None, "eom", "conflict", "local", "phase", "limits", "typestate", "dmm"]
 
 
-def gen_case(rng: random.Random, n_ops=None, invalid_rate=0.12, query_rate=0.12, xy=None, focus=None):
+def gen_case(rng: random.Random, n_ops=None, invalid_rate=0.12, query_rate=0.12, xy=None, focus=None, slm=True):
     if focus == "mix":
         focus = rng.choice(FOCI)
     if focus == "typestate":
         invalid_rate = 0.3
     xy = (rng.random() < (0.3 if focus == "typestate" else 0.1)) if xy is None else xy
     dev = gen_device(rng, xy=xy, focus=focus)
+    if not slm:
+        dev["slm"] = False  # callers whose model has no SLM mask
     reg = gen_register(rng)
     n = len(reg["ids"])
     maps = []
@@ -541,6 +581,8 @@ def gen_case(rng: random.Random, n_ops=None, invalid_rate=0.12, query_rate=0.12,
         if sum(w) == 0:
             w[0] = 1.0
         maps.append(w)
+    if focus == "dmm" and maps[0] == maps[1]:
+        maps[1] = [1.0 if x < 1.0 else 0.25 for x in maps[0]]
     case = dict(device=dev, register=reg, maps=maps, ops=[])
     case["ops"] = gen_ops(rng, case, n_ops or rng.randint(3, 25), invalid_rate, query_rate, focus=focus)
     return case
